@@ -52,6 +52,14 @@ type Contract struct {
 	Unroll   map[int]int
 	Atomics  map[string]*AtomicSpec // "Type.field" -> rely/guarantee
 	Inventory []InventorySpec
+	AllowedCalls *AllowedCalls
+}
+
+// AllowedCalls: the complete list of callees the function body may call.
+type AllowedCalls struct {
+	Names []string
+	Tag   string
+	Line  int
 }
 
 // AtomicSpec: rely/guarantee over (old, new) for one atomic field (DESIGN.md 3.5).
@@ -94,7 +102,7 @@ type ContractSet struct {
 var clauseKeywords = map[string]bool{
 	"func": true, "requires": true, "ensures": true, "assigns": true, "loop": true,
 	"safety": true, "mode": true, "strings": true, "trusted": true, "pure": true, "inline": true,
-	"spec": true, "lemma": true, "at-call": true, "unroll": true, "atomic": true, "inventory": true,
+	"spec": true, "lemma": true, "at-call": true, "unroll": true, "atomic": true, "inventory": true, "allowed-calls": true,
 }
 
 var tagRe = regexp.MustCompile(`^\[(C[0-9]+\.[A-Za-z0-9_.-]+)\]\s*`)
@@ -309,6 +317,18 @@ func (cs *ContractSet) loadContractFile(path, pkgPath string) error {
 					cur.Atomics = map[string]*AtomicSpec{}
 				}
 				cur.Atomics[field] = &AtomicSpec{Field: field, Rely: rc, Guarantee: gc}
+			case "allowed-calls":
+				// allowed-calls [tag] f1, f2, ...: the function body calls nothing else
+				r2 := rest
+				ac := &AllowedCalls{Line: st.line}
+				if m := tagRe.FindStringSubmatch(r2); m != nil {
+					ac.Tag = m[1]
+					r2 = r2[len(m[0]):]
+				}
+				for _, w := range splitTop(r2, ',') {
+					ac.Names = append(ac.Names, strings.TrimSpace(w))
+				}
+				cur.AllowedCalls = ac
 			case "inventory":
 				// inventory [tag] Type.field only-in f1, f2
 				inv := InventorySpec{Line: st.line}
